@@ -1,11 +1,15 @@
+\* Behaviour emission "families" (what bin/check C04 --tier quick runs): every root, every producer family in every
+\* way of writing it, one opener before and at most two statements after the producer.
+\* `INVARIANT HasControl` (every hazardous behaviour has a re-validated control) is also enforced by the check on the
+\* emitted records (ctlkind # "none"); keep it here for manual runs.
 SPECIFICATION Spec
 CONSTANTS
     Roots <- AllRoots
-    MaxOpen = 2
+    MaxOpen = 1
     MaxMid = 2
-    FamsFull <- NoFams
+    FamsFull <- AllFams
     FamsRep <- RepFams
-    FullDepth = 0
+    FullDepth = 1
 INVARIANT Emit
 INVARIANT HasControl
 INVARIANT ReportHoles
